@@ -16,6 +16,7 @@ pub mod rng;
 pub mod sig;
 pub mod w_channel;
 pub mod w_halflock;
+pub mod w_iter;
 pub mod w_reg;
 
 pub use signal_hook_registry::verif::site;
